@@ -1113,6 +1113,16 @@ def gen_S(tier):
             yield case(['Pseq', [['Pdur', d, k], MARK]])
         for k in kids[:2 * len(d3)]:
             yield case(['Pdur', d, k], STARTS[1])
+    # S5b Pdur over children whose durations are not binary fractions (the
+    # cut never falls within Pdur's 0.001 tolerance of an event boundary):
+    # the deltas still add up to the requested total
+    for d in (0.5, 1.25, 3.5):
+        for ds in ([1 / 3], [0.3], [0.7 / 3, 0.3], [0.1, 1 / 3]):
+            if ds == [0.1, 1 / 3] and d == 0.5:
+                continue
+            yield case(['Pseq', [['Pdur', d, pb(ds, 40, inf=True)], MARK]])
+            yield case(['Ppar', [['Pdur', d, pb(ds, 40, inf=True)],
+                                 ['Pdelta', d, MARK]]])
     # S6 Pdelta
     for t in (0.25, 1):
         for ds in d3:
@@ -1584,7 +1594,7 @@ def main(ctx):
         'the wire is main.process().list of the NRT score; the root-group '
         'and end-marker bundles are ignored',
         'numeric comparison relative 1e-9 (times are dyadic except '
-        'legato 0.8)',
+        'legato 0.8 and the S5b family)',
         f'player runs are guarded by a budget of {CALL_BUDGET} python calls']
     ctx.extra['call_budget'] = CALL_BUDGET
     bound = ('K: 1 value/modifier, 5 scales; P: 4 contexts; S: dur '
